@@ -23,3 +23,8 @@ add("C07", "E1",
     "Every rendering (all call-form subsets) of every tree up to the stated size x every deletion/insertion of one parenthesis at every place, every appended binary operator, an extra operand on either side of every operand, six illegal characters at every character position; texts the reference classifier puts into one of the five classes of the property must be Err (not Ok, not a panic) for FlatEx::parse, parse_wo_compile, DeepEx::parse, eval_str, parse_val. Damages that yield well-formed or unclassified texts are skipped and counted.",
     "Trusted: the reference lexer and the token-level classifier in harness/src/spec.rs (classes: empty, unbalanced, trailing operator, unknown character sequence, operand count).",
     "DESIGN.md §3 C07")
+add("C13", "E1",
+    "exhaustive enumeration of all character strings up to a length bound over targeted lexical alphabets and prefix-related operator tables, judged by a reference lexer/parser",
+    "All strings of length <= L over eight lexical alphabets (unary names that are prefixes of each other, log/log2/log10, symbolic prefixes <,<=,<<,=,==, constants incl. Greek, sign chains, braces, Greek identifiers, literal spellings with the default number matcher and the real f64 table): whenever the reference reads a text as well-formed, parse / parse_wo_compile / DeepEx::parse must accept it with the same variables and the same symbolic (resp. numeric) value; texts with an unknown character sequence must be rejected.",
+    "Trusted: the reference lexer (documented rules) in harness/src/spec.rs. Texts malformed for non-lexical reasons, unclosed braces are skipped and counted.",
+    "DESIGN.md §3 C13")
